@@ -131,6 +131,21 @@ def gen_cases(seed, thorough):
                                 else:
                                     mod = wrap_ns_path(surround(inner), path)
                                 yield 'typedef-%s/%s/%s%s' % (tkind, 'before' if before else 'after', 'global-for-ns-target' if td_global and tdepth else 'same-scope', '/with-list' if also_list else ''), mod
+    # 3b. same-named templates in different namespaces, all typedef'd in one module
+    for tk in ('class', 'func', 'fwd'):
+        def tgt(name, tk=tk):
+            tpl = header([0, 0], pool)
+            return class_decl(tpl, name) if tk == 'class' else (func_decl(tpl, name) if tk == 'func' else D.fwd(name))
+        nm = 'Pair' if tk != 'func' else 'pairUp'
+        for order in (0, 1):
+            tds = [D.typedef(T('left::' + nm, t=[pool[0], pool[1]]), 'LeftPair'),
+                   D.typedef(T('right::inner::' + nm, t=[pool[2], pool[0]]), 'RightPair'),
+                   D.typedef(T(nm, t=[pool[1], pool[1]]), 'GlobalPair')]
+            if order:
+                tds.reverse()
+            # typedefs precede the namespaces of their templates (the other order is a separate, known finding)
+            yield 'typedef-%s/same-name-in-3-namespaces' % tk, surround(
+                tds + [D.ns('left', [tgt(nm)]), tgt(nm), D.ns('right', [D.ns('inner', [tgt(nm)])])])
     # 4. template with neither list nor typedef yields nothing; two templates side by side
     yield 'nothing', surround([class_decl(header([0], pool)), func_decl(header([0, 0], pool))])
     yield 'two', surround([class_decl(header([2], pool), 'Foo'), class_decl(header([1, 2], pool, 2), 'Bar'),
